@@ -2,9 +2,11 @@ package main
 
 import (
 	"encoding/json"
+	"flag"
 	"fmt"
 	"math/rand"
 	"os"
+	"os/exec"
 	"path/filepath"
 	"regexp"
 	"sort"
@@ -25,8 +27,6 @@ import (
 // updates that were delivered.
 // ---------------------------------------------------------------------------------------------
 
-var concSamples atomic.Int64
-
 type witnessConc struct {
 	Layer    int    `json:"layer"`
 	Kind     string `json:"kind"`
@@ -38,7 +38,24 @@ type witnessConc struct {
 	Want     string `json:"want,omitempty"`
 }
 
-func runConcurrent(r *ev.Run, seed int64) {
+// concFinding / concResult travel from the child process to the parent as JSON.
+type concFinding struct {
+	Sig     string      `json:"sig"`
+	What    string      `json:"what"`
+	Witness witnessConc `json:"witness"`
+}
+
+type concResult struct {
+	Seed     int64          `json:"seed"`
+	OK       bool           `json:"ok"`
+	Writes   int64          `json:"writes"`
+	Reads    int64          `json:"reads"`
+	Findings []concFinding  `json:"findings"`
+	Sample   map[string]any `json:"sample"`
+}
+
+func runConcurrent(seed int64) concResult {
+	res := concResult{Seed: seed}
 	rg := rand.New(rand.NewSource(seed))
 	// one long consistent history for three shards
 	var hs []shardHist
@@ -101,22 +118,32 @@ func runConcurrent(r *ev.Run, seed int64) {
 	var stop atomic.Bool
 	var reads, writes atomic.Int64
 	type regress struct {
+		class  string
 		reader string
 		shard  uint64
 		before upd
 		got    upd
 	}
 	var mu sync.Mutex
-	var bad []regress
+	bad := map[string]regress{} // first of each class
 	check := func(reader string, prev map[uint64]upd, got upd) {
 		if got.ShardID == 0 {
 			return
 		}
 		p := prev[got.ShardID]
-		if got.Term < p.Term || (p.LeaderID != 0 && got.LeaderID == 0) || got.ConfigChangeIndex < p.ConfigChangeIndex {
+		class := ""
+		switch {
+		case got.Term < p.Term:
+			class = "term-regressed"
+		case p.LeaderID != 0 && got.LeaderID == 0:
+			class = "leader-replaced-by-noleader"
+		case got.ConfigChangeIndex < p.ConfigChangeIndex:
+			class = "config-index-regressed"
+		}
+		if class != "" {
 			mu.Lock()
-			if len(bad) < 5 {
-				bad = append(bad, regress{reader, got.ShardID, p, got})
+			if _, ok := bad[class]; !ok {
+				bad[class] = regress{class, reader, got.ShardID, p, got}
 			}
 			mu.Unlock()
 		}
@@ -196,27 +223,150 @@ func runConcurrent(r *ev.Run, seed int64) {
 	wg.Wait()
 	stop.Store(true)
 	rwg.Wait()
-	r.Count("concurrent_writes", writes.Load())
-	r.Count("concurrent_reads", reads.Load())
+	res.Writes, res.Reads = writes.Load(), reads.Load()
 	for _, b := range bad {
-		r.Violation("concurrent-reader-saw-regression", fmt.Sprintf("%s: shard %d went from %s to %s", b.reader, b.shard, fmtUpd(b.before), fmtUpd(b.got)),
-			witnessConc{Layer: 1, Kind: "concurrent", CaseSeed: seed, Reader: b.reader, Shard: b.shard, Before: fmtUpd(b.before), Got: fmtUpd(b.got)})
+		res.Findings = append(res.Findings, concFinding{"concurrent-reader-saw-" + b.class, fmt.Sprintf("%s: shard %d went from %s to %s", b.reader, b.shard, fmtUpd(b.before), fmtUpd(b.got)),
+			witnessConc{Layer: 1, Kind: "concurrent", CaseSeed: seed, Reader: b.reader, Shard: b.shard, Before: fmtUpd(b.before), Got: fmtUpd(b.got)}})
 	}
-	ok := len(bad) == 0
 	for _, got := range v.Copy() {
 		if d := diff(got.ShardID, got, want[got.ShardID]); d != "" {
-			ok = false
-			r.Violation("concurrent-final-view-not-join:"+d, fmt.Sprintf("shard %d: view %s, join %s", got.ShardID, fmtUpd(got), fmtSV(got.ShardID, want[got.ShardID])),
-				witnessConc{Layer: 1, Kind: "concurrent", CaseSeed: seed, Shard: got.ShardID, Got: fmtUpd(got), Want: fmtSV(got.ShardID, want[got.ShardID])})
+			res.Findings = append(res.Findings, concFinding{"concurrent-final-view-not-join:" + d, fmt.Sprintf("shard %d: view %s, join %s", got.ShardID, fmtUpd(got), fmtSV(got.ShardID, want[got.ShardID])),
+				witnessConc{Layer: 1, Kind: "concurrent", CaseSeed: seed, Shard: got.ShardID, Got: fmtUpd(got), Want: fmtSV(got.ShardID, want[got.ShardID])}})
 		}
 	}
-	if ok {
-		r.Count("concurrent_rounds", 1)
-		if sampleSlot(&concSamples, 1) {
-			r.Sample(map[string]any{"layer": 1, "family": "concurrent", "case_seed": seed, "updates": nUpd, "writer_goroutines": W + 2, "reader_goroutines": 9,
-				"update_and_merge_calls": writes.Load(), "reads": reads.Load(), "final_view": canonView(v.Copy())})
+	res.OK = len(res.Findings) == 0
+	res.Sample = map[string]any{"layer": 1, "family": "concurrent", "case_seed": seed, "updates": nUpd, "writer_goroutines": W + 2, "reader_goroutines": 9,
+		"update_and_merge_calls": res.Writes, "reads": res.Reads, "final_view": canonView(v.Copy())}
+	return res
+}
+
+// ---------------------------------------------------------------------------------------------
+// The workload runs in a child process: an unsynchronised map makes the Go runtime abort the
+// process ("fatal error: concurrent map ..."), which is an outcome to classify, not to suffer.
+// ---------------------------------------------------------------------------------------------
+
+var concChild = flag.String("conc-child", "", "internal: run the concurrent workload, write results to this file")
+var concRounds = flag.Int("conc-rounds", 3, "internal: number of rounds of the concurrent workload")
+var concCase = flag.Int64("conc-case", 0, "internal: run this case seed in every round (replay)")
+
+func concSeed(runSeed int64, i int) int64 { return runSeed*5_000_011 + int64(i) }
+
+// concChildMain is the child side: log each case before running it, results at the end.
+func concChildMain(runSeed int64) {
+	logf, _ := os.OpenFile(*concChild+".cases", os.O_CREATE|os.O_WRONLY|os.O_APPEND, 0o644)
+	var all []concResult
+	for i := 0; i < *concRounds; i++ {
+		s := concSeed(runSeed, i)
+		if *concCase != 0 {
+			s = *concCase
+		}
+		if logf != nil {
+			fmt.Fprintf(logf, "%d\n", s)
+			_ = logf.Sync()
+		}
+		all = append(all, runConcurrent(s))
+	}
+	b, _ := json.Marshal(all)
+	if err := os.WriteFile(*concChild, b, 0o644); err != nil {
+		fmt.Fprintln(os.Stderr, "conc child:", err)
+		os.Exit(3)
+	}
+	os.Exit(0)
+}
+
+var crashRe = regexp.MustCompile(`(?m)^(fatal error|panic): (.*)$`)
+
+// runConcurrentInChild is the parent side.
+func runConcurrentInChild(r *ev.Run, rounds int, caseSeed int64) {
+	scratch := os.Getenv("SCRATCH")
+	if scratch == "" {
+		d, err := os.MkdirTemp("/var/tmp", "verif.c19.")
+		if err != nil {
+			r.Inconclusive("concurrent: no scratch directory: " + err.Error())
+			return
+		}
+		defer os.RemoveAll(d)
+		scratch = d
+	}
+	self := os.Getenv("VERIF_SELF")
+	if self == "" {
+		self, _ = os.Executable()
+	}
+	out := filepath.Join(scratch, fmt.Sprintf("conc-%d.json", os.Getpid()))
+	_ = os.Remove(out)
+	_ = os.Remove(out + ".cases")
+	errPath := out + ".stderr"
+	errf, err := os.Create(errPath)
+	if err != nil {
+		r.Inconclusive("concurrent: " + err.Error())
+		return
+	}
+	cmd := exec.Command("timeout", "-s", "QUIT", "300", self, "--conc-child", out, "--conc-rounds", fmt.Sprint(rounds), "--conc-case", fmt.Sprint(caseSeed), "--seed", fmt.Sprint(r.Seed), "--tier", r.Tier)
+	cmd.Stdout, cmd.Stderr = errf, errf
+	runErr := cmd.Run()
+	errf.Close()
+	if b, err := os.ReadFile(out); err == nil && runErr == nil {
+		var all []concResult
+		if json.Unmarshal(b, &all) == nil {
+			for i, res := range all {
+				r.Count("concurrent_writes", res.Writes)
+				r.Count("concurrent_reads", res.Reads)
+				for _, f := range res.Findings {
+					sigMu.Lock()
+					sigCount[f.Sig]++
+					n := sigCount[f.Sig]
+					sigMu.Unlock()
+					if n == 1 {
+						r.Violation(f.Sig, f.What, f.Witness)
+					}
+				}
+				if res.OK {
+					r.Count("concurrent_rounds", 1)
+					if i == 0 {
+						r.Sample(res.Sample)
+					}
+				}
+			}
+			return
 		}
 	}
+	// the child died
+	stderr, _ := os.ReadFile(errPath)
+	cases, _ := os.ReadFile(out + ".cases")
+	lastCase := ""
+	if l := strings.Fields(string(cases)); len(l) > 0 {
+		lastCase = l[len(l)-1]
+	}
+	code := -1
+	if ee, ok := runErr.(*exec.ExitError); ok {
+		code = ee.ExitCode()
+	}
+	text := string(stderr)
+	if m := crashRe.FindStringSubmatch(text); m != nil && code != 124 {
+		// first regatta frame after the message names the place
+		where := ""
+		for _, line := range strings.Split(text[strings.Index(text, m[0]):], "\n") {
+			if strings.HasPrefix(line, regattaPrefix) && !strings.Contains(line, "Verif") {
+				where = strings.TrimPrefix(line, regattaPrefix)
+				if i := strings.LastIndex(where, "("); i > 0 { // argument list
+					where = where[:i]
+				}
+				break
+			}
+		}
+		if len(text) > 4000 {
+			text = text[:4000]
+		}
+		var cs int64
+		fmt.Sscan(lastCase, &cs)
+		r.Violation("concurrent-use-crash:"+m[2]+":"+where, fmt.Sprintf("the process running concurrent update/copy/shardInfo/LocalState/MergeRemoteState on one view died: %s: %s (in %s)", m[1], m[2], where),
+			map[string]any{"layer": 1, "kind": "concurrent", "case_seed": cs, "exit_code": code, "stderr_head": text})
+		return
+	}
+	if len(text) > 1500 {
+		text = text[len(text)-1500:]
+	}
+	r.Inconclusive(fmt.Sprintf("concurrent child ended with exit code %d (124 = watchdog) without a result; last case %s; stderr tail: %s", code, lastCase, text))
 }
 
 // ---------------------------------------------------------------------------------------------
